@@ -16,6 +16,8 @@ fixed or rotated deterministically / drawn from the seeded generator):
   E  HDF5 filter option sets
   F  JSON metadata documents and assembly names
   G  frames/dicts whose rows are given in any order (create_cooler sorts them)
+  H  chunk streams through the DEFAULT (unordered, external-sort) path: chunk counts x max_merge (two-pass merge when
+     there are more chunks than max_merge) x mergebuf, empty chunks, pixels repeated across chunks (summed)
 """
 import itertools
 import shutil
@@ -213,6 +215,19 @@ def build_input(form, recs, bins, symm, valcols, vdtypes, B):
         df = pd.DataFrame(cols)
         e = chunk_edges(par)
         return [df.iloc[a:b] for a, b in zip(e[:-1], e[1:])], {"ordered": True}
+    if name in ("unordered-frames", "unordered-dicts"):
+        # chunks in ARBITRARY order (each one internally sorted, possibly empty, pixels may repeat across chunks) through the
+        # two-step external-sort path of create_cooler: ordered=False given explicitly or left to its default
+        e = chunk_edges(par["sizes"])
+        if name == "unordered-frames":
+            df = pd.DataFrame(cols)
+            chunks = [df.iloc[a:b] for a, b in zip(e[:-1], e[1:])]
+        else:
+            chunks = [{k: v[a:b] for k, v in cols.items()} for a, b in zip(e[:-1], e[1:])]
+        extra = {"max_merge": par["max_merge"], "mergebuf": par["mergebuf"]}
+        if par.get("explicit_ordered_false", True):
+            extra["ordered"] = False
+        return iter(chunks), extra
     if name in ("array-loader", "array-loader-h5"):
         assert valcols == ["count"]
         A = np.zeros((n, n), dtype=NP[vdtypes["count"]])
@@ -229,6 +244,31 @@ def build_input(form, recs, bins, symm, valcols, vdtypes, B):
             A = fh["A"]
         return ArrayLoader(bins, A, par), {"ordered": True}
     raise ValueError(name)
+
+
+def aggregate(recs):
+    """per-pixel sum of the count over all records, in (bin1_id, bin2_id) order"""
+    tot = {}
+    for i, j, v in recs:
+        tot[(i, j)] = tot.get((i, j), 0) + v
+    return [(i, j, tot[(i, j)]) for (i, j) in sorted(tot)]
+
+
+def unordered_chunks(cells, k, variant):
+    """k chunks over the given cells, deterministic: sizes cycle 2,1,0,3 (every 4th chunk empty), each chunk internally
+    sorted and duplicate-free, the pixel cells[0] present in the first AND the last non-empty chunk (repeated => summed),
+    chunk order not sorted.  Losing any non-empty chunk changes the aggregate."""
+    chunks = []
+    for t in range(k):
+        size = [2, 1, 0, 3][(t + variant) % 4]
+        d = {cells[(5 * t + 3 * s + variant) % len(cells)]: 1 + (t + s) % 3 for s in range(size)}
+        chunks.append(d)
+    nonempty = [d for d in chunks if d]
+    if nonempty:
+        nonempty[0][cells[0]] = 7
+        if len(nonempty) > 1:
+            nonempty[-1][cells[0]] = 2
+    return [[(i, j, v) for (i, j), v in sorted(d.items())] for d in chunks]
 
 
 def uniform_sizes(nnz, k):
@@ -281,13 +321,25 @@ class Runner:
         valcols = list(valcols)
         vdtypes = dict(vdtypes or {c: "int32" for c in valcols})
         n = len(bins)
-        nnz = len(recs)
-        # what must come back: the records in (bin1_id, bin2_id) order (inputs of sections A-F are already in that order)
-        exp = sorted(recs, key=lambda r: (r[0], r[1])) if expected_recs is None else expected_recs
+        unordered = form[0].startswith("unordered-")
+        # what must come back: the records in (bin1_id, bin2_id) order (inputs of sections A-F are already in that order);
+        # for the unordered chunk forms (section H) the per-pixel SUM over all chunks
+        if expected_recs is not None:
+            exp = expected_recs
+        elif unordered:
+            exp = aggregate(recs)
+        else:
+            exp = sorted(recs, key=lambda r: (r[0], r[1]))
+        nnz = len(exp)
         case = dict(section=section, bins=spec, records=[list(r) for r in recs], symmetric_upper=symm, form=list(form),
                     value_columns=valcols, dtypes=vdtypes, pass_dtypes=pass_dtypes,
                     h5opts=h5opts, metadata=metadata, assembly=assembly, group=group)
         kind = f"{form[0]}/{'empty' if nnz == 0 else 'nonempty'}-matrix"
+        if unordered:
+            nch = len(form[1]["sizes"])
+            kind = (f"{form[0]}/{'two-pass(nchunks>max_merge)' if nch > form[1]['max_merge'] else 'single-pass'}/"
+                    f"{'empty' if nnz == 0 else 'nonempty'}-matrix")
+        c_pix = "pixels-table==aggregate-of-all-chunks" if unordered else "pixels-table==input-records"
         nt = nnz > 0
         self.k += 1
         path = B.path(f"c{self.k % 4}.cool")
@@ -311,25 +363,27 @@ class Runner:
         if not ok:
             return
         R.check("create-accepts-valid-input", True, case, nontrivial=nt)
-        ok, clr = R.guarded("pixels-table==input-records", case, lambda: cooler.Cooler(uri), kind)
+        ok, clr = R.guarded(c_pix, case, lambda: cooler.Cooler(uri), kind)
         if not ok:
             return
 
         # --- through the pixel table: exactly the records, every column, row t labelled t
-        ok, pix = R.guarded("pixels-table==input-records", case, lambda: clr.pixels()[:], kind)
+        ok, pix = R.guarded(c_pix, case, lambda: clr.pixels()[:], kind)
         if ok:
             want_cols = ["bin1_id", "bin2_id", *valcols]
             want = {c: [r[k] for r in exp] for k, c in enumerate(want_cols)}
             got = {c: pix[c].tolist() for c in pix.columns}
             good = (sorted(got) == sorted(want) and list(pix.index) == list(range(nnz))
                     and all(len(got[c]) == nnz and all(x == y for x, y in zip(got[c], want[c])) for c in want))
-            R.check("pixels-table==input-records", good, case, dict(index=list(pix.index), **got), want, nt, kind)
+            R.check(c_pix, good, case, dict(index=list(pix.index), **got), want, nt, kind)
 
         # --- through the full-matrix query
         for k, col in enumerate(valcols):
             contract = "full-matrix==completion-of-stored" if symm else "full-matrix==stored-matrix"
             if col != "count":
                 contract = "full-matrix-of-extra-column"
+            if unordered:
+                contract = "full-matrix==aggregate-of-all-chunks"
             F = full_of(exp, n, symm, 2 + k)
             ok, M = R.guarded(contract, case, lambda: clr.matrix(balance=False, field=None if col == "count" else col)[:, :],
                               kind)
@@ -446,6 +500,7 @@ def body(B):
     nA_sym_cap = (4, 4) if T else None      # thorough: symmetric n=4 with <= 4 non-zeros
     nB = 4
     maxbins_C = 6 if T else 5
+    counts_doc = range(2, 13) if T else (2, 3, 4, 5, 9, 10)
     B.bound = (
         f"A: ALL 0/1/2-valued matrices: symmetric-upper on n<={nA_sym} bins" + ("" if T else f" (n={nA_sym}: all 0/1 matrices and all 0/1/2 with <={nA_sym_quick_cap} non-zeros)") + f", square on n<={nA_sq_all} bins, square n={nA_sq_cap[0]} "
         f"with <={nA_sq_cap[1]} non-zeros" + (f", symmetric n={nA_sym_cap[0]} with <={nA_sym_cap[1]} non-zeros" if T else "")
@@ -456,8 +511,11 @@ def body(B):
         f"C: ALL bin layouts with <=3 chromosomes and <={maxbins_C} bins x {{fixed short-last, fixed exact, variable}} x 2 modes; "
         "D: count dtype {int32,int64,float64} (extreme values) x extra columns {none, float, int64, both, extra-without-count} x 4 forms x 2 modes; "
         "E: 4 h5opts sets x 2 modes x 3 matrices x 2 forms; F: 16 JSON metadata documents and 14 assembly names; "
-        "G: ALL row orders of a 4-record frame/dict"
-        + ("; thorough: + seeded random matrices on 5..8 bins with random layouts/forms/dtypes" if T else ""))
+        "G: ALL row orders of a 4-record frame/dict; "
+        f"H: unordered (default) path of create_cooler: chunk counts {list(counts_doc)} x max_merge {{1,2,3}} x 2 modes "
+        f"(mergebuf {'x {2,1e6}' if T else 'alternating 2/1e6'}, frames/dicts and explicit/default ordered=False rotated; every 4th chunk empty, "
+        "a pixel repeated across chunks) + single-pass / one-chunk / all-empty controls"
+        + ("; thorough: + seeded random matrices on 5..8 bins with random layouts/forms/dtypes + 150 random unordered chunkings (2..14 chunks)" if T else ""))
     B.rule = ("case = (section, bin table, records, mode, input form+chunking, value columns+dtypes, h5opts, metadata, assembly, group); "
               "non-trivial when the stored matrix has >= 1 record (metadata/assembly contracts: when the document is non-empty); distinct by (contract, case)")
 
@@ -588,6 +646,31 @@ def body(B):
         for fname in ("frame", "dict"):
             run.run("G:row-order", spec, bins, list(perm), True, [fname, None], expected_recs=srt)
 
+    # ---------------------------------------------------------------- H: chunks through the unordered (default) path
+    # create_cooler(uri, bins, iter(chunks)) sorts every chunk into a temporary cooler and merges them; with more chunks
+    # than max_merge the merge is done in two passes.  Whatever the chunk count, the result is the aggregate of ALL chunks.
+    spec, bins = default_layout(4)
+    counts_H = range(2, 13) if T else (2, 3, 4, 5, 9, 10)
+    idx = 0
+    for symm in (True, False):
+        cells = cells_of(4, symm)
+        for k in counts_H:
+            for mm in (1, 2, 3):
+                for mb in ((2, 10 ** 6) if T else ((2, 10 ** 6)[(idx + k) % 2],)):
+                    chunks = unordered_chunks(cells, k, idx % 4)
+                    form = ["unordered-frames" if idx % 3 else "unordered-dicts",
+                            dict(sizes=[len(c) for c in chunks], max_merge=mm, mergebuf=mb, explicit_ordered_false=bool(idx % 2))]
+                    run.run("H:unordered", spec, bins, [r for c in chunks for r in c], symm, form, pass_dtypes=False)
+                    idx += 1
+        # controls: single pass (max_merge >= nchunks), only empty chunks, one chunk
+        for k, mm in ((3, 200), (9, 9), (1, 1)):
+            chunks = unordered_chunks(cells, k, 1)
+            run.run("H:unordered", spec, bins, [r for c in chunks for r in c], symm,
+                    ["unordered-frames", dict(sizes=[len(c) for c in chunks], max_merge=mm, mergebuf=10 ** 6, explicit_ordered_false=False)],
+                    pass_dtypes=False)
+        run.run("H:unordered", spec, bins, [], symm,
+                ["unordered-frames", dict(sizes=[0, 0, 0], max_merge=2, mergebuf=10 ** 6, explicit_ordered_false=True)], pass_dtypes=False)
+
     # ---------------------------------------------------------------- thorough: seeded sampling beyond the bound
     if T:
         B.exhaustive = False  # the sampled part is not exhaustive (sections A-G are)
@@ -615,6 +698,21 @@ def body(B):
             run.run("S", spec_, bins_, recs_, symm, form, valcols, vdt, h5opts=rng.choice(H5SETS),
                     metadata=rng.choice([None, *METADATA[:8]]), assembly=rng.choice([None, *ASSEMBLIES[:8]]),
                     group=rng.choice([None, "/g", "/a/b/c"]))
+    if T:
+        for t in range(150):
+            nb = rng.randint(3, 6)
+            spec_, bins_ = default_layout(nb)
+            symm = rng.random() < 0.5
+            cells = cells_of(nb, symm)
+            k = rng.randint(2, 14)
+            chunks = []
+            for _ in range(k):
+                pick = sorted(rng.sample(cells, rng.randint(0, min(4, len(cells)))))
+                chunks.append([(i, j, rng.randint(1, 5)) for (i, j) in pick])
+            form = [rng.choice(["unordered-frames", "unordered-dicts"]),
+                    dict(sizes=[len(c) for c in chunks], max_merge=rng.choice([1, 2, 3, 4, 200]), mergebuf=rng.choice([1, 2, 5, 10 ** 6]),
+                         explicit_ordered_false=rng.random() < 0.5)]
+            run.run("S:unordered", spec_, bins_, [r for c in chunks for r in c], symm, form, pass_dtypes=False)
     run.R.dump()
     return B.finish()
 
